@@ -61,7 +61,8 @@ def main():
         i = a.index('--all')
         pre = a[i + 1] if len(a) > i + 1 and a[i + 1].startswith('C') else ''
         pats = sorted(glob.glob(os.path.join(V, 'selftest', 'mutants', pre + '*.patch')))
-        pats += [p for p in sorted(glob.glob(os.path.join(V, 'seeded', '*', 'patch.diff'))) if not pre or pre in props_for(p)]
+        pats += [p for p in sorted(glob.glob(os.path.join(V, 'seeded', '*', 'patch.diff')))
+                 if (not pre or pre in props_for(p)) and 'superseded' not in json.load(open(os.path.join(os.path.dirname(p), 'meta.json')))]
     par = int(os.environ.get('MUT_PAR', '2'))
     missed = 0
     with ThreadPoolExecutor(par) as ex:
